@@ -50,6 +50,9 @@ func (g *gen) Add(name string, typs []types.Type) (string, error) {
 	if len(typs) != 1 {
 		return "", fmt.Errorf("%s does not have one argument", name)
 	}
+	if sliceType, ok := typs[0].(*types.Slice); ok && !types.Comparable(sliceType.Elem()) {
+		return "", fmt.Errorf("%s, the elements of %s cannot be map keys, since they are not comparable", name, g.TypeString(typs[0]))
+	}
 	return g.SetFuncName(name, typs[0])
 }
 
